@@ -135,6 +135,7 @@ func genC15(t *rapid.T, tier string) (*World, any) {
 		{"renumber-check-all", []string{"util", "renumber-tests", "--check", "--all"}, ""},
 		{"renumber-check-all-gh", []string{"-o", "github", "util", "renumber-tests", "-c", "-a"}, ""},
 		{"renumber", []string{"util", "renumber-tests", "942110"}, ""},
+		{"renumber-decoy", []string{"util", "renumber-tests", pick(t, []string{"942130", "notes", "9421400", "942120"}, "decoyarg")}, ""},
 		{"renumber-all", []string{"util", "renumber-tests", "--all"}, ""},
 		{"renumber-all-gh", []string{"-o", "github", "util", "renumber-tests", "--all"}, ""},
 		{"copyright", []string{"chore", "update-copyright", "-v", "4.1.0", "-y", "2025"}, ""},
@@ -240,7 +241,7 @@ func evalC15(sc *Scenario, sim *Sim) ([]Violation, bool, string) {
 		}
 		inspecting := true
 		switch s.Name {
-		case "format", "format-include", "format-all", "update", "update-all", "renumber", "renumber-all", "renumber-all-gh", "copyright":
+		case "format", "format-include", "format-all", "update", "update-all", "renumber", "renumber-decoy", "renumber-all", "renumber-all-gh", "copyright":
 			inspecting = false
 		}
 		var bad []string
